@@ -19,3 +19,19 @@ impl Operation {
 pub open spec fn child_matches(op: &Operation, m: &ReMatcher, p: int) -> bool {
     iter_spec(op, m, p).len() > 0
 }
+
+// the static analyses of a child operation, as opaque facts (A-DISPATCH); unit `analysis` relates them to iter_spec
+pub uninterp spec fn op_matches_empty(op: &Operation) -> u32;
+pub uninterp spec fn op_match_length(op: &Operation) -> Option<usize>;
+pub uninterp spec fn op_min_length(op: &Operation) -> usize;
+pub uninterp spec fn op_has_captures(op: &Operation) -> bool;
+impl Operation {
+    #[verifier::external_body]
+    pub fn matches_empty_string(&self) -> (r: u32) ensures r == op_matches_empty(self), { unimplemented!() }
+    #[verifier::external_body]
+    pub fn get_match_length(&self) -> (r: Option<usize>) ensures r == op_match_length(self), { unimplemented!() }
+    #[verifier::external_body]
+    pub fn get_minimum_match_length(&self) -> (r: usize) ensures r == op_min_length(self), { unimplemented!() }
+    #[verifier::external_body]
+    pub fn contains_capturing_expressions(&self) -> (r: bool) ensures r == op_has_captures(self), { unimplemented!() }
+}
